@@ -2134,6 +2134,10 @@ def replace_for_loops_with_set_list_comp(source: str) -> str:
             if _is_name_assigned("sum", root):
                 continue
 
+            # A generator expression that awaits is an asynchronous generator: sum() cannot add it.
+            if any(True for _ in core.walk(n2, ast.Await)):
+                continue
+
             comprehension = ast.GeneratorExp(elt=body_node.value, generators=generators)
             replacement = ast.Call(func=ast.Name(id="sum"), args=[comprehension], keywords=[])
             if core.literal_value(value) != 0:
@@ -2188,27 +2192,22 @@ def replace_nested_loops_with_set_list_comp(source: str) -> str:
 
     transaction = 1
     # A loop with an else clause is left alone: the clause has no place in a comprehension.
-    for node in core.walk(root, (ast.For(orelse=[]), ast.AsyncFor(orelse=[]))):
+    # Nor is an async for, or a loop that awaits something: the generator expression would be an
+    # asynchronous generator, which extend() cannot iterate.
+    for node in core.walk(root, ast.For(orelse=[])):
         outermost_for = node
-        generators = [
-            ast.comprehension(
-                target=node.target,
-                iter=node.iter,
-                ifs=[],
-                is_async=int(isinstance(node, ast.AsyncFor)),
-        )]
-        while core.match_template(node.body, [(ast.For(orelse=[]), ast.If(orelse=[]), ast.AsyncFor(orelse=[]))]):
+        generators = [ast.comprehension(target=node.target, iter=node.iter, ifs=[], is_async=0)]
+        while core.match_template(node.body, [(ast.For(orelse=[]), ast.If(orelse=[]))]):
             node = node.body[0]
-            if isinstance(node, (ast.For, ast.AsyncFor)):
+            if isinstance(node, ast.For):
                 generators.append(
-                    ast.comprehension(
-                        target=node.target,
-                        iter=node.iter,
-                        ifs=[],
-                        is_async=int(isinstance(node, ast.AsyncFor)),
-                ))
+                    ast.comprehension(target=node.target, iter=node.iter, ifs=[], is_async=0)
+                )
             else:
                 generators[-1].ifs.append(node.test)
+
+        if any(True for _ in core.walk(outermost_for, ast.Await)):
+            continue
 
         if m := core.match_template(node.body, leaf_template):
             call_node = node.body[-1]
